@@ -30,8 +30,9 @@ def accr(a, t, act):
 
 
 class StubSim(DynamicOrderSimulation):
-    def __init__(self, script, discrete=False):
+    def __init__(self, script, discrete=False, flat_ep=False):
         self.discrete = discrete
+        self.flat_ep = flat_ep
         self.n = script["n"]
         self.learning = list(script["learning"])
         self.done_at = list(script["doneAt"])
@@ -63,7 +64,7 @@ class StubSim(DynamicOrderSimulation):
         self.next_agent = [self.ids[i] for i in nom]
 
     def reset(self, **kwargs):
-        self.ep += 1
+        self.ep = 1 if self.flat_ep else self.ep + 1
         self.t = 0
         self.reads = [0] * self.n
         self.pend = [0] * self.n
